@@ -111,7 +111,9 @@ func (o *offsetReadSeeker) Seek(offset int64, whence int) (int64, error) {
 			o.off = off
 		}
 	case io.SeekEnd:
-		panic("unsupported whence: SeekEnd")
+		return 0, errors.New("unsupported whence: io.SeekEnd")
+	default:
+		return 0, errors.New("unsupported whence")
 	}
 	return o.Position(), nil
 }
